@@ -53,6 +53,40 @@ CLAIMED = {
     note=TRUST + " Interop byte-equality with Elements Core is not checked.",
     technique="deterministic simulation with fault injection: I/O seams + key-value-aware medium + byzantine PSET re-encoder, seeded search",
   ),
+  "C08": dict(
+    category="exploration",
+    text=("Role histories over a PSET exchanged serialized between creator, updaters, signers and finalizers: after EVERY delivered "
+          "event (field addition or hand-over through chunking/EINTR seams, corrupted-then-retransmitted or duplicated deliveries in "
+          "the faulty configuration) unique_id() must equal the id of the previous event, two extract_tx() calls must agree and equal a "
+          "field-by-field model; from_tx(t).extract_tx() == t over well-formed transactions; locktime() against a 12-line executable "
+          "model of BIP370 over every {none,time,height,both} assignment on 0..5 inputs and any fallback."),
+    design_ref="DESIGN.md §4 C08",
+    note=TRUST + " Mostly workload checked as invariants along simulated histories. Two open known findings (explicit nonce; confidential nonce on an unblinded output) are confined to 1/6 of the tx round-trip runs.",
+    technique="deterministic simulation: seeded multi-party role histories with invariants after every delivered event + executable BIP370 reference model",
+  ),
+  "C09": dict(
+    category="exploration",
+    text=("Multi-party simulation: 1..4 blinders, each knowing only its own inputs' secrets and owning the outputs whose blinder_index "
+          "points at its inputs, act in a drawn order (all but one blind_non_last, the last blind_last), each with its own simulator-owned "
+          "RNG; between every two steps the PSET is serialized, carried by the medium (bytes or base64, chunked/EINTR; corrupted-then-"
+          "retransmitted, duplicated, or the party forgets its result and redoes the step) and deserialized. Invariants per step (exactly "
+          "one scalar added, foreign outputs untouched) and at the end (all marked outputs fully blinded, scalars empty, extracted "
+          "transaction verifies against the UTXOs, every output unblinds to the original, stored explicit-value/asset proofs verify)."),
+    design_ref="DESIGN.md §4 C09",
+    note=TRUST + " Every party owning inputs blinds at least one output; collusion/privacy properties are not examined.",
+    technique="deterministic simulation: seeded party schedule, per-party RNG seam, serialized hops with message faults and party amnesia",
+  ),
+  "C14": dict(
+    category="exploration",
+    text=("Replica-convergence simulation: from a generated ancestor, 2..5 parties add independent or identical fields (48 kinds over "
+          "global/input/output maps), send their copy serialized to the combiner; the same delivery multiset is merged under 2..4 drawn "
+          "orders, as a chain and as a tree, with duplicated deliveries; all results must be equal field-wise and byte-wise, keep the "
+          "unique id, contain every addition of every party; a PSET with another id must be refused unchanged; xpub key sources in seven "
+          "relations are merged in both directions and compared with the rule documented in Global::merge."),
+    design_ref="DESIGN.md §4 C14",
+    note=TRUST + " Only independent additions are generated; A+A == A is deliberately not demanded.",
+    technique="deterministic simulation: replicas diverge by seeded independent updates, deliveries reordered/duplicated, convergence and no-loss oracles",
+  ),
   "C13": dict(
     category="exploration",
     text=("One simulated signer issues seeded histories (<= 24 steps) of legacy / segwit-v0 / taproot digest queries, the three "
